@@ -52,6 +52,38 @@ model here: the fd itself — that `close_fd()` runs on every exit path of the p
 and that read(2) on the fd returns (a pipe from a `curl` child may block) are covered by the
 file-input scenarios of tools/props/c07.py only (20 s watchdog, thread count, fd count
 before/after, file offset at close() vs at the end; the two regression probes).
+
+THE INPUT ENDS EARLY (section "the input ends early" at the end).  Clause: "if the input ends early … the
+failure is reported to the caller as an exception from header(), the next read() or close()".
+(1) Framing, Model/PbfFd.lean + Lemmas/PbfTrunc.lean: the PBF record loop of the parser thread
+(`4-byte length | BlobHeader | Blob`), as input-queue reader over arbitrary chunks (`readAllQ`) and as
+direct-fd reader with arbitrary short reads (`readAllFd`), both equal to one function of the
+concatenated bytes (`readAll`).  For ALL valid files `fs` (`FileOk`: header record, then data records whose
+BlobHeader decodes — with the real `decode_blob_header` — to the size of the Blob that follows, within
+the format limits; the files of the specification framing encoder are such files:
+`spec_encoder_files_are_valid`) and ALL cut positions `k`: reading the first `k` bytes ends in an
+exception (`Outcome.isError`) UNLESS `k` is a record boundary behind the header blob, in which case
+exactly the records before `k` are returned (`pbf_truncation_reported`, `…_queue`, `…_direct_fd`); in
+every case the records handed on are exactly the complete records before the cut
+(`pbf_truncated_records_are_prefix`).  FINDING recorded here: before the repair `Fixes.lengthStrict`
+(an input ending 1..3 bytes into the 4-byte length field was `return 0; // EOF`) the clause was FALSE:
+`pbf_length_prefix_cut_was_accepted` (the full statement refuted for `Fixes.before` on a 34-byte
+witness), `pbf_truncation_before_partial` (true for all other cuts).
+(2) Pipeline, Lemmas/PipelineTrunc.lean: a parser that throws at the end of the data it was given
+(`c.parseFault = some c.file.length`: `c.file` = the objects of the complete records) never lets the
+caller see a regular end of data — no reachable state has `sawEod`, no read() ever returns `eof`
+(`truncated_input_reported`, `direct_truncated_input_reported`); with termination
+(`api_call_returns_thread_fair`) every read() returns, so a caller that reads on gets the exception.
+(3) `pbf_truncated_read_raises` puts (1) and (2) together.
+(4) o5m (Lemmas/O5mTrunc.lean, C06's dataset loop `Chunks.o5mRun`): a cut inside the 7-byte header or
+inside a dataset is an error (`premature`), a cut at a dataset boundary returns the datasets before it —
+the reader does not require the 0xfe end marker, so for it such a prefix is a valid shorter file
+(`o5m_truncation_reported`; recorded assumption).  XML: `xml_final_call_always_made` — the feed loop calls
+expat with every chunk and then exactly once with `last = true`; that expat rejects an incomplete document
+in that call is NOT modelled (no model of expat's well-formedness check exists here): for XML the clause
+rests on the truncation sweep of tools/props/c07.py alone.  OPL: every prefix is an OPL file (a last
+line without line feed is a line: C06 `opl_chunking`), so there is no framing error to report; the sweep
+checks read(p) = read(p + LF).
 -/
 import Osmium.Lemmas.PipelineBase
 import Osmium.Lemmas.PipelineComplete
@@ -62,6 +94,9 @@ import Osmium.Lemmas.PipelineProg
 import Osmium.Lemmas.PipelineFair
 import Osmium.Lemmas.PipelineFairT
 import Osmium.Lemmas.PipelineDirect6
+import Osmium.Lemmas.PipelineTrunc
+import Osmium.Lemmas.PbfTrunc
+import Osmium.Lemmas.O5mTrunc
 
 namespace Osmium.C07
 
@@ -529,5 +564,196 @@ example : (∃ s, (D directCfg).Reachable s ∧
     simp only [Option.map_eq_some_iff] at h
     obtain ⟨s, hs, hp⟩ := h
     exact ⟨s, direct_foldlM_reachable directCfg _ _ s .init hs, hp⟩
+
+/-! ## the input ends early
+
+Framing (`PbfFd`): `mhC`/`mbC` = max_blob_header_size / max_uncompressed_blob_size, `PbfFraming.blobSize` =
+`decode_blob_header`.  `PbfFd.Fixes.current` = the code as it is (the repaired length field). -/
+
+section Truncation
+
+open Osmium.PbfFd
+open Osmium.Wire (Bytes)
+
+abbrev mhC : Nat := PbfFraming.maxBlobHeaderSize
+abbrev mbC : Nat := PbfFraming.maxUncompressedBlobSize
+
+theorem mhC_lt : mhC < 2 ^ 32 := by decide
+theorem mhC_le_mbC : mhC ≤ mbC := by decide
+
+/-- `pbf_truncation_reported`: for ALL valid PBF files `fs` (list of records) and ALL cut positions `k`, the
+    record loop of the parser on the first `k` bytes ends in an exception — before the header is known
+    (`errHeader`: header() reports it) or after the complete data blobs (`errData n`: read() reports it) —
+    UNLESS `k` is the end of record `j ≥ 1` (a boundary behind the header blob); then it returns normally with
+    exactly the records before `k`.  (On the concatenated bytes; the two readers follow.) -/
+theorem pbf_truncation_reported : PbfTruncationReported Fixes.current mhC mbC PbfFraming.blobSize :=
+  PbfFd.pbf_truncation_reported mhC mbC PbfFraming.blobSize mhC_lt
+
+/-- … through the INPUT QUEUE, for every way the cut input arrives in (non-empty) chunks -/
+theorem pbf_truncation_reported_queue (fs : List (Bytes × Bytes)) (k : Nat) (cs : List Bytes)
+    (hok : FileOk mhC mbC PbfFraming.blobSize fs) (hk : k ≤ (fileBytes fs).length)
+    (hne : ∀ c ∈ cs, c ≠ []) (hcs : cs.flatten = (fileBytes fs).take k) :
+    let r := readAllQ Fixes.current mhC mbC PbfFraming.blobSize cs
+    (∃ j, 1 ≤ j ∧ j ≤ fs.length ∧ k = boundary fs j ∧ r = (fs.take j, none) ∧ outcome r = .ok (j - 1)) ∨
+    (outcome r).isError = true :=
+  PbfFd.pbf_truncation_reported_queue mhC mbC PbfFraming.blobSize mhC_lt fs k cs hok hk hne hcs
+
+/-- … through the FILE DESCRIPTOR (the parser's direct-fd path), for every sequence of short read(2) counts -/
+theorem pbf_truncation_reported_direct_fd (fs : List (Bytes × Bytes)) (k : Nat) (sched : List Nat)
+    (hok : FileOk mhC mbC PbfFraming.blobSize fs) (hk : k ≤ (fileBytes fs).length) :
+    let r := readAllFd Fixes.current mhC mbC PbfFraming.blobSize ⟨(fileBytes fs).take k, sched⟩
+    (∃ j, 1 ≤ j ∧ j ≤ fs.length ∧ k = boundary fs j ∧ r = (fs.take j, none) ∧ outcome r = .ok (j - 1)) ∨
+    (outcome r).isError = true :=
+  PbfFd.pbf_truncation_reported_fd mhC mbC PbfFraming.blobSize mhC_lt mhC_le_mbC fs k sched hok hk
+
+/-- the two readers compute the same function of the bytes (every chunking, every short-read schedule) -/
+theorem pbf_readers_agree (fx : Fixes) (cs : List Bytes) (hne : ∀ c ∈ cs, c ≠ []) (sched : List Nat) :
+    readAllQ fx mhC mbC PbfFraming.blobSize cs = readAll fx mhC mbC PbfFraming.blobSize cs.flatten ∧
+    readAllFd fx mhC mbC PbfFraming.blobSize ⟨cs.flatten, sched⟩ = readAll fx mhC mbC PbfFraming.blobSize cs.flatten :=
+  ⟨PbfFd.readAllQ_eq fx mhC mbC PbfFraming.blobSize cs hne,
+   PbfFd.readAllFd_eq fx mhC mbC PbfFraming.blobSize mhC_le_mbC ⟨cs.flatten, sched⟩⟩
+
+/-- whatever the outcome: the records handed to the decoders are exactly the COMPLETE records before the
+    cut (none invented, none dropped) — before and after the repair -/
+theorem pbf_truncated_records_are_prefix (fx : Fixes) (fs : List (Bytes × Bytes)) (k : Nat)
+    (hok : FileOk mhC mbC PbfFraming.blobSize fs) (hk : k ≤ (fileBytes fs).length) :
+    ∃ j, j ≤ fs.length ∧ (readAll fx mhC mbC PbfFraming.blobSize ((fileBytes fs).take k)).1 = fs.take j ∧
+      boundary fs j ≤ k :=
+  PbfFd.pbf_truncation_prefix fx mhC mbC PbfFraming.blobSize mhC_lt fs hok k hk
+
+/-- the files of the specification framing encoder (`PbfSpec.frame`: any field order, optional indexdata,
+    unknown extra fields) are valid files in the sense of these theorems -/
+theorem spec_encoder_files_are_valid (ch : PbfSpec.Choices) (hch : Pbf.ChoicesOk ch) (hp : Bytes) (dps : List Bytes)
+    (hh : Pbf.FrameFits ch PbfFraming.osmHeader hp) (hd : ∀ p ∈ dps, Pbf.FrameFits ch PbfFraming.osmData p) :
+    FileOk mhC mbC PbfFraming.blobSize
+      ((Pbf.specHdr ch PbfFraming.osmHeader hp, Pbf.specBlob ch hp) ::
+        dps.map fun p => (Pbf.specHdr ch PbfFraming.osmData p, Pbf.specBlob ch p)) :=
+  PbfFd.spec_fileOk ch hch hp dps hh hd
+
+/-- FINDING (found by the truncation sweep of tools/props/c07.py, repaired in /repo): with the length field
+    read as before the repair — ANY short read of the 4 length bytes is `return 0; // EOF` — the clause is
+    FALSE: a file cut 1..3 bytes behind a record is read as a complete file. -/
+theorem pbf_length_prefix_cut_was_accepted :
+    ¬ PbfTruncationReported Fixes.before mhC mbC PbfFraming.blobSize :=
+  PbfFd.pbf_truncation_before_refuted
+
+/-- … and that was the only hole: before the repair the clause holds for every cut that is not 1..3 bytes
+    behind a record boundary -/
+theorem pbf_truncation_before_partial (fs : List (Bytes × Bytes)) (k : Nat)
+    (hok : FileOk mhC mbC PbfFraming.blobSize fs) (hk : k ≤ (fileBytes fs).length)
+    (hcut : ∀ j, 1 ≤ j → j < fs.length → ¬ (boundary fs j < k ∧ k < boundary fs j + 4)) :
+    let r := readAll Fixes.before mhC mbC PbfFraming.blobSize ((fileBytes fs).take k)
+    (∃ j, 1 ≤ j ∧ j ≤ fs.length ∧ k = boundary fs j ∧ r = (fs.take j, none) ∧ outcome r = .ok (j - 1)) ∨
+    (outcome r).isError = true :=
+  PbfFd.pbf_truncation_before_partial mhC mbC PbfFraming.blobSize mhC_lt fs k hok hk hcut
+
+/-- non-vacuity: valid files with a header record and two data records exist for the real limits and the
+    real `decode_blob_header`; the witness of the finding, before and after the repair -/
+example : (∃ fs, FileOk mhC mbC PbfFraming.blobSize fs ∧ fs.length ≥ 3) ∧
+    readAll Fixes.before mhC mbC PbfFraming.blobSize ((fileBytes exFile2).take 19) = ([(exHdrH, [0])], none) ∧
+    readAll Fixes.current mhC mbC PbfFraming.blobSize ((fileBytes exFile2).take 19) = ([(exHdrH, [0])], some .truncated) :=
+  ⟨⟨[(exHdrH, [0]), (exHdrD, [1]), (exHdrD, [2])],
+    ⟨exHdrH_ok 0, by
+      intro d hd
+      simp only [List.mem_cons, List.not_mem_nil, or_false] at hd
+      rcases hd with rfl | rfl
+      · exact exHdrD_ok 1
+      · exact exHdrD_ok 2⟩, by decide⟩,
+   exFile2_cut_before, exFile2_cut_current⟩
+
+/-! ### the pipeline: a parser that throws at the end of what it was given -/
+
+/-- `truncated_input_reported`: the parser throws when it reaches the end of the data it was given
+    (`c.parseFault = some c.file.length`; `c.file` = the objects of the complete records of a truncated input).
+    Then in EVERY reachable state, for every schedule, client, queue bound and pool size: read() has never
+    unpacked the end-of-data marker, no read() has returned "end of data" and none is about to.  Since every
+    API call returns (`api_call_returns_thread_fair`) and its result is data, `eof`, an io_error caused by an
+    EARLIER error/close, or the exception of a stage, a caller that reads on gets the exception
+    (`first_error_reported`, `no_data_after_error`). -/
+theorem truncated_input_reported (c : Cfg α) (wf : c.WF) (hn : c.nothing = false)
+    (hpf : c.parseFault = some c.file.length) (s : State α) (h : (P c).Reachable s) :
+    s.sawEod = false ∧ Res.eof ∉ s.results ∧ s.cpc ≠ .ret .eof ∧ s.cpc ≠ .eofJoin :=
+  Trunc.truncated_never_eof c wf hn hpf s h
+
+/-- read() returns "end of data" only after it has popped the end-of-data marker from the osmdata queue (or
+    with an empty entity mask) — never because a queue was shut down under it -/
+theorem eof_only_after_end_marker (c : Cfg α) (wf : c.WF) (s : State α) (h : (P c).Reachable s)
+    (he : s.cpc = .eofJoin ∨ s.cpc = .ret .eof ∨ Res.eof ∈ s.results) : s.sawEod = true ∨ c.nothing = true :=
+  Trunc.eof_only_after_eod c wf s h he
+
+/-- the same for a PBF file read directly through the fd -/
+theorem direct_truncated_input_reported (c : Cfg α) (hd : Direct.IsDirect c) (wf : (Direct.fed c).WF)
+    (hn : c.nothing = false) (hpf : c.parseFault = some c.file.length) (sd : State α) (h : (D c).Reachable sd) :
+    sd.sawEod = false ∧ Res.eof ∉ sd.results :=
+  Trunc.direct_truncated_never_eof c hd wf hn hpf sd h
+
+/-- the parse fault of the pipeline configuration that reads an input whose record loop has outcome `o`: the
+    parser throws behind the objects of the complete records iff the outcome is an exception -/
+def faultOf (o : Outcome) (n : Nat) : Option Nat := if o.isError then some n else none
+
+/-- `pbf_truncated_read_raises` — framing and pipeline together.  A valid PBF file cut at ANY position `k`
+    that is not a record boundary behind the header blob, read by a Reader whose parser behaves as the record
+    loop says (`c.parseFault = faultOf (outcome …) c.file.length`, `c.file` = the objects of the complete
+    blobs): no schedule lets the caller see a regular end of data. -/
+theorem pbf_truncated_read_raises (fs : List (Bytes × Bytes)) (k : Nat)
+    (hok : FileOk mhC mbC PbfFraming.blobSize fs) (hk : k ≤ (fileBytes fs).length)
+    (hnb : ¬ ∃ j, 1 ≤ j ∧ j ≤ fs.length ∧ k = boundary fs j)
+    (c : Cfg α) (wf : c.WF) (hn : c.nothing = false)
+    (hc : c.parseFault =
+      faultOf (outcome (readAll Fixes.current mhC mbC PbfFraming.blobSize ((fileBytes fs).take k))) c.file.length)
+    (s : State α) (h : (P c).Reachable s) : s.sawEod = false ∧ Res.eof ∉ s.results := by
+  have hr := pbf_truncation_reported fs k hok hk
+  simp only at hr
+  rcases hr with ⟨j, h1, h2, h3, _⟩ | herr
+  · exact absurd ⟨j, h1, h2, h3⟩ hnb
+  · rw [faultOf, if_pos herr] at hc
+    exact ⟨(truncated_input_reported c wf hn hc s h).1, (truncated_input_reported c wf hn hc s h).2.1⟩
+
+/-- … and at a record boundary behind the header blob the record loop returns normally with exactly the
+    records before the cut: such a prefix is a valid shorter file (its pipeline configuration has no parse
+    fault, C05 `exactly_once_in_order` applies) -/
+theorem pbf_boundary_cut_is_a_file (fs : List (Bytes × Bytes)) (j : Nat)
+    (hok : FileOk mhC mbC PbfFraming.blobSize fs) (h1 : 1 ≤ j) (hj : j ≤ fs.length) :
+    readAll Fixes.current mhC mbC PbfFraming.blobSize ((fileBytes fs).take (boundary fs j)) = (fs.take j, none) ∧
+    faultOf (outcome (readAll Fixes.current mhC mbC PbfFraming.blobSize ((fileBytes fs).take (boundary fs j)))) 0 = none := by
+  have hb := PbfFd.read_cut_boundary Fixes.current mhC mbC PbfFraming.blobSize mhC_lt fs hok j hj
+  refine ⟨hb, ?_⟩
+  rw [hb, faultOf, PbfFd.outcome_take_ok fs j h1 hj]
+  rfl
+
+/-! ### o5m and XML -/
+
+/-- `o5m_truncation_reported`: the o5m parser (header check + dataset loop, C06's model `Chunks.o5mRun` on the
+    concatenated stream) on the first `k` bytes of ANY well-formed dataset stream behind the 7-byte header:
+    `headerTooShort` for k < 7, `premature` for a cut inside a dataset (after its type byte, inside its length
+    or its payload), and at a dataset boundary the datasets before the cut WITHOUT an error — the reader does
+    not require the 0xfe end marker, for it such a prefix is a valid shorter file (recorded assumption). -/
+theorem o5m_truncation_reported (ds : List Chunks.Dataset) (hok : ∀ d ∈ ds, O5mTrunc.DatasetOk d) (k : Nat)
+    (hk : k ≤ (O5mTrunc.hdr7 ++ O5mTrunc.encStream ds).length) :
+    (k < 7 ∧ O5mTrunc.flatO5mRun ((O5mTrunc.hdr7 ++ O5mTrunc.encStream ds).take k) = ([], some .headerTooShort)) ∨
+    (∃ j, j ≤ ds.length ∧ k = 7 + O5mTrunc.dsBoundary ds j ∧
+      O5mTrunc.flatO5mRun ((O5mTrunc.hdr7 ++ O5mTrunc.encStream ds).take k) = (ds.take j, none)) ∨
+    (∃ j off, ∃ hj : j < ds.length, 0 < off ∧ off < (O5mTrunc.encDataset ds[j]).length ∧
+      k = 7 + O5mTrunc.dsBoundary ds j + off ∧
+      O5mTrunc.flatO5mRun ((O5mTrunc.hdr7 ++ O5mTrunc.encStream ds).take k) = (ds.take j, some .premature)) :=
+  O5mTrunc.o5m_truncation_reported ds hok k hk
+
+/-- … so the o5m reader reports no error EXACTLY at the dataset boundaries behind the header — for every
+    chunking of the cut input (`Chunks.o5mRun` = the reader over the chunks as they arrive) -/
+theorem o5m_no_error_iff_dataset_boundary (ds : List Chunks.Dataset) (hok : ∀ d ∈ ds, O5mTrunc.DatasetOk d) (k : Nat)
+    (hk : k ≤ (O5mTrunc.hdr7 ++ O5mTrunc.encStream ds).length) (cs : List Bytes) (hne : ∀ c ∈ cs, c ≠ [])
+    (hcs : cs.flatten = (O5mTrunc.hdr7 ++ O5mTrunc.encStream ds).take k) :
+    (Chunks.o5mRun cs).2 = none ↔ ∃ j, j ≤ ds.length ∧ k = 7 + O5mTrunc.dsBoundary ds j := by
+  rw [O5mTrunc.o5m_chunking' cs hne, hcs]
+  exact O5mTrunc.o5m_no_error_iff_boundary ds hok k hk
+
+/-- `xml_final_call_always_made`: XMLParser::run hands every chunk to expat with `last = false` and then calls
+    it EXACTLY ONCE with the empty string and `last = true` — the call in which expat checks that the document
+    is complete (that check itself is not modelled). -/
+theorem xml_final_call_always_made (cs : List Bytes) (hne : ∀ c ∈ cs, c ≠ []) :
+    Chunks.xmlFeed cs = cs.map (fun c => (c, false)) ++ [([], true)] :=
+  O5mTrunc.xml_final_call cs hne
+
+end Truncation
 
 end Osmium.C07
